@@ -8,6 +8,7 @@ import (
 	"crypto/ecdh"
 	"crypto/ed25519"
 	"fmt"
+	"strings"
 
 	"golang.org/x/crypto/nacl/auth"
 	"golang.org/x/crypto/nacl/box"
@@ -251,6 +252,14 @@ func openRes(ret []byte, ok bool) string {
 
 func exec(line string) string {
 	o := hx.Parse(line)
+	r := execOp(o)
+	if o.Has("expect") && strings.ReplaceAll(r, " ", "_") != o.Str("expect") {
+		return "kat-mismatch " + r
+	}
+	return r
+}
+
+func execOp(o hx.Op) string {
 	var out []byte
 	if o.Has("out") {
 		out = withCap(o.Hex("out"), o.Int("cap"))
